@@ -103,3 +103,56 @@ func zzH_CLI() {
 		vReach("end")
 	})
 }
+
+// zzH_CLIb: blocking calls one after another on one connection (Call, CallWithContext and Ping recycle
+// their Call objects through the pool, LIFO): replies of every length including empty ones, with and
+// without a caller-supplied context buffer; each call gets exactly the reply computed from its own
+// arguments.
+func zzH_CLIb() {
+	K := vParam("clib.K", 3)
+	vSetPoolReuse(true)
+	m := newZZMsgs(8)
+	m.auto = true
+	m.yieldW = false
+	conn := NewConnWithCodec(NewClientCodec(&zzBytesCodec{}, nil, m, 64))
+	switch vChoose("mode", 3) {
+	case 1:
+		conn.directIO = true
+	case 2:
+		conn.SetPipelining(true)
+	}
+	for i := 0; i < K; i++ {
+		var args []byte
+		empty := vChoose("empty-reply", 2) == 1
+		if empty {
+			args = []byte{zzEmptyReplyMarker, byte(i)}
+		} else {
+			args = append([]byte{byte(0x10 + i)}, vBytesN("args", 1+vChoose("len", 2)*2)...)
+		}
+		var reply []byte
+		var err error
+		switch vChoose("form", 3) {
+		case 0:
+			err = conn.Call("S.Echo", &args, &reply)
+		case 1:
+			ctx := &zzCtx{done: make(chan struct{})}
+			if vChoose("ctxbuf", 2) == 1 {
+				ctx.buf = vBufferN("cbuf", 8)
+			}
+			err = conn.CallWithContext(ctx, "S.Echo", &args, &reply)
+		case 2:
+			err = conn.Ping()
+			vAssert(err == nil, "no-error")
+			continue
+		}
+		vAssert(err == nil, "no-error")
+		if empty {
+			vAssert(len(reply) == 0, "reply-of-own-args")
+		} else {
+			vAssert(vEqBytes(reply, zzReplyFor(args)), "reply-of-own-args")
+		}
+	}
+	m.auto = false
+	m.fail(io.EOF)
+	vReach("end")
+}
